@@ -1,0 +1,31 @@
+//go:build verif
+
+// Contracts for the deductive verification in /verif (govc). Comment-only:
+// with the build tag off this file is not compiled, with it on it declares nothing.
+package sse
+
+// ---------------------------------------------------------------------------
+// C19 (partial: crash freedom of the channel protocol). A send on a closed channel and a second close panic and take
+// the whole watch process down, so for the per-client event channels:
+//   - closable event: chanopen(ch) is ghost state that other goroutines change at any moment (except for a channel
+//     this activation made and has not closed); a send needs chanopen(ch), a close needs the channel to be the
+//     activation's own and the registry lock to be held;
+//   - lock invariant of Handler.m: the registry is non-nil, every channel in it is registered under its own tag and
+//     is open (so whoever holds the lock may send to a registered channel, and the client that closes its channel
+//     must have removed it first).
+// Not decided: that every connected client receives every event, deadlock, blocked or leaked goroutines.
+//@ closable event
+//@ lockinv Handler.m(s) protects requests: s.requests != nil && forallkey(k, s.requests, chantag(s.requests[k]) == k && chanopen(s.requests[k]))
+
+//@ func (*Handler) Send [C19]
+//@   requires s != nil && s.m != nil && !held(s.m)
+//@   modifies *
+//@   loop 1 invariant held(s.m)
+//@   ensures !held(s.m)
+
+//@ func (*Handler) ServeHTTP [C19]
+//@   requires s != nil && s.m != nil && !held(s.m) && r != nil && implements(w, http.Flusher)
+//@   modifies *
+//@   init before s.m.Unlock#1: chantag(events) == id
+//@   loop 1 invariant !held(s.m)
+//@   ensures !held(s.m)
